@@ -10,13 +10,13 @@ E2 = "contract-based deductive verification: the unmodified kaira functions are 
 
 CHECKS = {
     "C01": dict(
-        text="For every enumerated code configuration (families x parameters x information sets x random generators) the contract clauses forward(x)==x.G, calculate_syndrome(y)==y.H^T, syndrome(forward(m))==0 and syndrome(y)==0 => y in rowspace(G) (n<=12 quick / 16 thorough) are discharged for ALL input bit vectors of four layouts by symbolic execution of the real methods; the object invariant (G binary rank k, H binary rank n-k, G.H^T=0, advertised n,k) is a ground obligation evaluated exactly on what the real constructors built. Bound that remains: the configuration grid. Construction sequences: seven encoders of one family built in one process with alternating information sets are each checked against their own G and H (state carried between constructions).",
+        text="For every enumerated code configuration (families x parameters x information sets x random generators) the contract clauses forward(x)==x.G, calculate_syndrome(y)==y.H^T, syndrome(forward(m))==0 and syndrome(y)==0 => y in rowspace(G) (n<=12 quick / 16 thorough) are discharged for ALL input bit vectors of four layouts by symbolic execution of the real methods; the object invariant (G binary rank k, H binary rank n-k, G.H^T=0, advertised n,k) is a ground obligation evaluated exactly on what the real constructors built. Bound that remains: the configuration grid. Construction sequences: seven encoders of one family built in one process with alternating information sets are each checked against their own G and H (state carried between constructions). Bounded: forward/syndrome on bits carried as int64/int32/uint8/bool/float64/float16 equal the float32 result.",
         note="Trusted: vk engine E2 (op table pinned to torch meta kernels + differential cross-check every run), z3, exact GF(2) ground kernel, rank-nullity lemma. Bodies of the SVD-free null-space/row-reduction helpers are covered through the invariant of every constructed code, not symbolically.",
         design="7/C01",
         technique=E2 + "; closed obligations by exact GF(2) rank computation",
     ),
     "C04": dict(
-        text="inverse_encode(forward(m)) == (m, 0), extract_message and project_word likewise, with exact k/n shape scaling, discharged for ALL messages on every enumerated code x four layouts (1-D, batch, nested batch, two concatenated blocks; thorough adds 3 and 4 blocks) by symbolic execution of the real methods (Hamming's correction loop and Reed-Muller's nearest-codeword search are explored path-completely); rejection of non-multiple lengths discharged for all inputs; G.R=I as ground obligation per constructed code.",
+        text="inverse_encode(forward(m)) == (m, 0), extract_message and project_word likewise, with exact k/n shape scaling, discharged for ALL messages on every enumerated code x four layouts (1-D, batch, nested batch, two concatenated blocks; thorough adds 3 and 4 blocks) by symbolic execution of the real methods (Hamming's correction loop and Reed-Muller's nearest-codeword search are explored path-completely); rejection of non-multiple lengths discharged for all inputs; G.R=I as ground obligation per constructed code. Rejection also for layouts whose element count (but not last dimension) is a multiple of the block size. Bounded: round trip and single-error inverses on the other bit carriers (int64/int32/uint8/bool/float64/float16).",
         note="Trusted: as C01. Configuration grid is the remaining bound; Reed-Muller codes with k>4 use the 1-D layout only (2^k-way argmin per row).",
         design="7/C04",
         technique=E2,
@@ -53,7 +53,7 @@ CHECKS = {
         technique="contracts on the real forward() methods: unbounded fold-loop VCs from the AST (z3, uninterpreted stages); execution with uninterpreted stubs; thread pool replaced by its contract with exhaustive admissible completion orders",
     ),
     "C05": dict(
-        text="demod(mod(bits)) == bits and the symbol count are discharged for ALL bit sequences of the enumerated lengths (1..3 symbols; all ordered pairs/triples for schemes with memory) by symbolic execution of the real modulator (table lookup = ITE over the real constellation buffer) and demodulator (nearest point decided on exact rationals of the stored floats), for every scheme/order/labelling/normalisation configuration and 1-D/batched layouts; the dependency obligations (symbol i depends on bit group i only; the decision is per symbol, for all received y) extend the claim from the enumerated lengths to long sequences. DPSK hard decisions use atan2: bits are concretised by forking (still all bit patterns). Registry: ground. Long sequences: bounded.",
+        text="demod(mod(bits)) == bits and the symbol count are discharged for ALL bit sequences of the enumerated lengths (1..3 symbols; all ordered pairs/triples for schemes with memory) by symbolic execution of the real modulator (table lookup = ITE over the real constellation buffer) and demodulator (nearest point decided on exact rationals of the stored floats), for every scheme/order/labelling/normalisation configuration and 1-D/batched layouts; the dependency obligations (symbol i depends on bit group i only; the decision is per symbol, for all received y) extend the claim from the enumerated lengths to long sequences. DPSK hard decisions use atan2: bits are concretised by forking (still all bit patterns). Registry: ground. Long sequences: bounded. Round trips of the schemes with memory also on objects that were used in training mode and then reset.",
         note="Trusted: vk engine; floats as reals with exact float32 table values. Known findings (pinned by tests): pi/4-QPSK treats short 1-D inputs as symbol indices and returns indices from 1-D hard demodulation.",
         design="7/C05",
         technique=E2,
@@ -66,13 +66,13 @@ CHECKS = {
         engine="vk-E1-vcgen",
     ),
     "C16": dict(
-        text="forward of BitErrorRate / BlockErrorRate (+SER/FER aliases) and the StandardMetrics helpers == exact counts for ALL binary tensor pairs of the enumerated shapes/block sizes (symbolic bits; hence symmetric, zero iff equal, BER <= BLER <= min(1, B.BER)); non-divisor block sizes rejected. Streaming form as a data structure with abstract view (T,E): update proved for a SYMBOLIC prior state and symbolic batch ((T,E) -> (T+n, E+d), frame), compute and reset likewise; with the fold lemma this gives partition/order independence for histories of any length. Exhaustive short histories are a bounded cross-check.",
+        text="forward of BitErrorRate / BlockErrorRate (+SER/FER aliases) and the StandardMetrics helpers == exact counts for ALL binary tensor pairs of the enumerated shapes/block sizes (symbolic bits; hence symmetric, zero iff equal, BER <= BLER <= min(1, B.BER)); non-divisor block sizes rejected. Streaming form as a data structure with abstract view (T,E): update proved for a SYMBOLIC prior state and symbolic batch ((T,E) -> (T+n, E+d), frame), compute and reset likewise; with the fold lemma this gives partition/order independence for histories of any length. Exhaustive short histories are a bounded cross-check. Helper BLER also on 2-D inputs.",
         note="Trusted: vk engine, lemma L-fold. Floats as reals (counter rounding above 2^24 not modelled).",
         design="7/C16",
         technique=E2 + "; data-structure contract with symbolic prior state + induction lemma",
     ),
     "C20": dict(
-        text="For every encoder (forward, inverse_encode, calculate_syndrome; all catalogue codes) and the E2-reachable decoders (syndrome lookup, brute-force ML): f(batch)[i] == f(member i alone) for ALL member values, batches of 2-3 members and nested (2,1) leading dimensions; (B, 2n) either equals per-block evaluation or raises; a repeated call returns identical terms; inputs unmodified - discharged by symbolic execution (path-complete). Berlekamp-Massey and majority-logic decoding: bounded stand-in (random batches of 1..6 incl. special members, permutations, layouts). Modulators/demodulators/constraints: their batched-layout and per-symbol/per-item dependency clauses are part of C05/C06/C08.",
+        text="For every encoder (forward, inverse_encode, calculate_syndrome; all catalogue codes) and the E2-reachable decoders (syndrome lookup, brute-force ML): f(batch)[i] == f(member i alone) for ALL member values, batches of 2-3 members and nested (2,1) leading dimensions; (B, 2n) either equals per-block evaluation or raises; a repeated call returns identical terms; inputs unmodified - discharged by symbolic execution (path-complete). Berlekamp-Massey and majority-logic decoding: bounded stand-in (random batches of 1..6 incl. special members, permutations, layouts). Modulators/demodulators/constraints: their batched-layout and per-symbol/per-item dependency clauses are part of C05/C06/C08. Bounded generic purity stand-in (batch == singles, permutation, layouts equal-or-raise, repeat, input unmodified) over hard decoders x six input dtypes, all soft decoders of C10/C11, memoryless modulators x five bit carriers, demodulators hard/soft x complex64/128.",
         note="Trusted: vk engine. Bound: configuration grid, batch sizes 2-3.",
         design="7/C20",
         technique=E2,
@@ -121,7 +121,7 @@ CHECKS = {
         technique=E2,
     ),
     "C08": dict(
-        text="Total/average/per-antenna power constraints: for ALL real/complex inputs of the enumerated shapes (<= 6 elements per item) each item's output equals s.x_item with s > 0 the execution's own scale term, s^2 = T/(p + 1e-8), power(out) <= T(1+1e-6), >= 0.999 T for p >= 1e-5, per-item dependency, idempotence and rescaling invariance (normal-form identities + a small z3 lemma), both the batch-of-1 and batched code paths and the flat-signal branch; peak amplitude: bound, identity inside the limit, nearest-bound clipping (complex input is rejected); composite / apply_constraint_chain / combine_constraints == left fold (0..4 parts; unbounded fold-loop VCs are C17.fold_unbounded); factory OFDM/MIMO composites satisfy all limits simultaneously. PAPRConstraint (15 data-dependent iterations): bounded stand-in over the property's signal families.",
+        text="Total/average/per-antenna power constraints: for ALL real/complex inputs of the enumerated shapes (<= 6 elements per item) each item's output equals s.x_item with s > 0 the execution's own scale term, s^2 = T/(p + 1e-8), power(out) <= T(1+1e-6), >= 0.999 T for p >= 1e-5, per-item dependency, idempotence and rescaling invariance (normal-form identities + a small z3 lemma), both the batch-of-1 and batched code paths and the flat-signal branch; peak amplitude: bound, identity inside the limit, nearest-bound clipping (complex input is rejected); composite / apply_constraint_chain / combine_constraints == left fold (0..4 parts; unbounded fold-loop VCs are C17.fold_unbounded); factory OFDM/MIMO composites satisfy all limits simultaneously. PAPRConstraint (15 data-dependent iterations): bounded stand-in over the property's signal families. Composite: parts added (also to a nested composite) AFTER a first call.",
         note="Trusted: vk engine; floats as reals with the stated 1e-6 / 1e-3 tolerances. Shapes small and enumerated. PAPR: bounded only, never counted as proved.",
         design="7/C08",
         technique=E2 + "; bounded native stand-in for the iterative PAPR constraint",
